@@ -26,6 +26,9 @@ RULE = ("Reaction systems are built by construction (vlib/gen_c03.py): 0-8 react
         "2-5 pool systems, "
         "checking every result and every structural query on it.  Non-trivial = >= 2 components or a catalyst or a "
         "species in no reaction (plain sub-checks); a subset or split after an addition (machine runs).")
+RULE += ("  Substance naming: a quarter to a half of the generated systems (structure, ops, convert, machine) hand their "
+         "substances over as a mapping key -> Substance whose .name is another string, missing, or the keys rotated by one; "
+         "every result must be keyed by the system's keys and hold the parent's Substance objects (split, subset).")
 ASSUMPTIONS = ["upper_conc_bounds is float arithmetic over non-negative terms: compared with relative tolerance 1e-12",
                "split parts are the components that contain at least one reaction (a species in no reaction forms no part)",
                "identify_equilibria: exact comparison when every reaction has at most one reverse partner, otherwise "
@@ -146,6 +149,42 @@ def pred_callable(sel, objs):
 # checks of the structural queries of one system against its description
 # ---------------------------------------------------------------------------
 
+NAMINGS = ["same", "other", "unnamed", "permuted"]
+
+
+def build_sys(sysd, objs):
+    """ReactionSystem of the description.  sysd["naming"] != "same": the substances are handed over as an OrderedDict
+    key -> Substance whose .name is *not* the key (another string, no name at all, or the keys rotated by one) - all
+    results are still keyed by the system's keys."""
+    naming = sysd.get("naming", "same")
+    if naming == "same":
+        return G.build_system(sysd, objs)
+    from collections import OrderedDict
+    from chempy import ReactionSystem, Substance
+    keys = list(sysd["subs"])
+    if naming == "other":
+        names = ["compound " + k.lower() for k in keys]
+    elif naming == "unnamed":
+        names = [None] * len(keys)
+    else:
+        names = keys[1:] + keys[:1]
+    return ReactionSystem(objs, OrderedDict((k, Substance(n) if n is not None else Substance()) for k, n in zip(keys, names)))
+
+
+def check_substance_values(ctx, rsys, parents, what):
+    """Every Substance object of a derived system is the object one of its parents holds under the same key."""
+    for k, v in rsys.substances.items():
+        if not any(k in p.substances and p.substances[k] is v for p in parents):
+            ctx.fail(what + ":substance_object", key=k, got=repr(v)[:80])
+            return False
+    return True
+
+
+def _ksorted(keys):
+    """sorted() that also takes the None / non-string keys a broken tree may hand back."""
+    return sorted(keys, key=lambda k: (not isinstance(k, str), str(k)))
+
+
 def ids(objs):
     return [id(o) for o in objs]
 
@@ -156,7 +195,7 @@ def check_members(ctx, rsys, subs, objs, what, ordered=True):
         ctx.fail(what + ":reactions", got=[short(str(r), 60) for r in rsys.rxns], expected=[short(str(r), 60) for r in objs])
         return False
     got = list(rsys.substances.keys())
-    if (got != list(subs)) if ordered else (sorted(got) != sorted(subs)):
+    if (got != list(subs)) if ordered else (_ksorted(got) != _ksorted(subs)):
         ctx.fail(what + ":substances", got=got, expected=list(subs))
         return False
     if rsys.nr != len(objs) or rsys.ns != len(subs):
@@ -196,12 +235,15 @@ def check_split(ctx, rsys, subs, descs, objs, dup, tag=""):
             if any(o is x for x in p.rxns):
                 mine.update(G.rxn_keys(descs[i]))
         if pk != mine:
-            ctx.fail("split:substances_of_part" + tag, got=sorted(pk), expected=sorted(mine))
+            ctx.fail("split:substances_of_part" + tag, got=_ksorted(pk), expected=_ksorted(mine))
             return False
         if pk & seen:
-            ctx.fail("split:substance_sets_overlap" + tag, shared=sorted(pk & seen))
+            ctx.fail("split:substance_sets_overlap" + tag, shared=_ksorted(pk & seen))
             return False
         seen |= pk
+        # the substances of a part are the parent's Substance objects (under the parent's keys)
+        if not check_substance_values(ctx, p, [rsys], "split" + tag):
+            return False
     return parts
 
 
@@ -220,7 +262,7 @@ def check_categorize(ctx, rsys, subs, descs, dup, tag=""):
         return False
     for c in CATS:
         if set(got[c]) != exp[c]:
-            ctx.fail("categorize:" + c + tag, got=sorted(got[c]), expected=sorted(exp[c]),
+            ctx.fail("categorize:" + c + tag, got=_ksorted(got[c]), expected=_ksorted(exp[c]),
                      reactions=[{s: r[s] for s in G.SIDES} for r in descs])
             return False
     return True
@@ -285,6 +327,7 @@ def struct_labels(ctx, sysd):
 def struct_cases(draw, max_subs=12, max_rxns=8):
     sysd = draw(G.systems(cls="exact", max_subs=max_subs, max_rxns=max_rxns,
                           min_rxns=0 if draw(G.ints(0, 39)) == 39 else 1, p_eq=15))
+    sysd["naming"] = G.pick(draw, NAMINGS + NAMINGS[:1])
     return {"sys": sysd, "perm": G.permutation(draw, list(range(len(sysd["rxns"]))))}
 
 
@@ -293,7 +336,8 @@ def check_struct_case(case, ctx):
     struct_labels(ctx, sysd)
     subs = list(sysd["subs"])
     objs = [G.build_reaction(r, i) for i, r in enumerate(sysd["rxns"])]
-    rsys = G.build_system(sysd, objs)
+    ctx.label("naming=" + sysd.get("naming", "same"))
+    rsys = build_sys(sysd, objs)
     if not check_members(ctx, rsys, subs, objs, "constructor"):
         return
     if not check_structure(ctx, rsys, subs, sysd["rxns"], objs):
@@ -303,7 +347,7 @@ def check_struct_case(case, ctx):
         ctx.label("permuted")
         descs_p = [sysd["rxns"][i] for i in perm]
         objs_p = [objs[i] for i in perm]
-        rsys_p = G.build_system(sysd, objs_p)
+        rsys_p = build_sys(sysd, objs_p)
         check_structure(ctx, rsys_p, subs, descs_p, objs_p, tag=":reordered")
 
 
@@ -474,6 +518,9 @@ def ops_cases(draw):
     # twins: some reactions of a once more as *distinct objects that compare equal* (same stoichiometry and parameter,
     # other name / ref / data); the system that holds both is made by +, += or by the constructor with the duplicate
     # check switched off; the predicate separates reactions by name / ref / data / identity with an arbitrary extension
+    # substance keys that are not the Substance objects' names (each operand on its own)
+    for x in [a, b] + more:
+        x["naming"] = G.pick(draw, NAMINGS + NAMINGS[:1])
     na = len(a["rxns"])
     tw = sorted(set(G.pick_distinct(draw, list(range(na)), 1, 3)))
     how = G.pick(draw, ["add_system", "add_reactions", "iadd_system", "ctor_checks_empty", "ctor_dont_check_duplicate"])
@@ -515,14 +562,14 @@ def as_iterable(form, objs):
 
 def _build(sysd):
     objs = [G.build_reaction(r, i) for i, r in enumerate(sysd["rxns"])]
-    return G.build_system(sysd, objs), objs
+    return build_sys(sysd, objs), objs
 
 
 def merged_keys(a_subs, b_subs):
     return list(a_subs) + [k for k in b_subs if k not in a_subs]
 
 
-def check_subset_result(ctx, parent_subs, descs, objs, sel, yes, no, tag=""):
+def check_subset_result(ctx, parent_subs, descs, objs, sel, yes, no, tag="", parent=None):
     """yes/no hold the selected / other reactions in order; their substances are the parent's substances (parent
     order) that occur in one of their reactions."""
     for flag, part, name in ((True, yes, "yes"), (False, no, "no")):
@@ -532,6 +579,8 @@ def check_subset_result(ctx, parent_subs, descs, objs, sel, yes, no, tag=""):
             keys.update(G.rxn_keys(descs[i]))
         if not check_members(ctx, part, [s for s in parent_subs if s in keys], [objs[i] for i in idx],
                              "subset:" + name + tag):
+            return False
+        if parent is not None and not check_substance_values(ctx, part, [parent], "subset:" + name + tag):
             return False
     return True
 
@@ -650,7 +699,7 @@ def check_concat_subs(ctx, got_keys, first_subs, union_subs, rxn_descs, what):
 def check_ops(case, ctx):
     a, b = case["a"], case["b"]
     struct_labels(ctx, a)
-    ctx.label("pred=" + case["pred"][0])
+    ctx.label("pred=" + case["pred"][0], "naming=" + a.get("naming", "same"), "naming_b=" + b.get("naming", "same"))
     shared = set(a["subs"]) & set(b["subs"])
     ctx.label("overlap=%s" % ("none" if not shared else "all" if shared == set(b["subs"]) else "some"))
     # subset
@@ -658,7 +707,7 @@ def check_ops(case, ctx):
     fn, sel = pred_callable(select(case["pred"], a["rxns"]), ao)
     ctx.label("subset=%s" % ("all" if all(sel) else "none" if not any(sel) else "some"))
     yes, no = A.subset(fn)
-    if not check_subset_result(ctx, a["subs"], a["rxns"], ao, sel, yes, no):
+    if not check_subset_result(ctx, a["subs"], a["rxns"], ao, sel, yes, no, parent=A):
         return
     if not check_members(ctx, A, a["subs"], ao, "subset:parent_changed"):
         return
@@ -782,14 +831,18 @@ def convert_cases(draw):
     vals = {k: draw(G.floats_pos(-6, 3)) if draw(G.ints(0, 3)) else float(draw(G.ints(0, 9))) for k in sorted(subs)}
     vk = G.pick_distinct(draw, sorted(subs), 0, 3)
     varied = {k: [draw(G.floats_pos(-3, 2)) for _ in range(draw(G.ints(1, 3)))] for k in vk}
-    return {"subs": subs, "subs_arg": G.pick(draw, ["list", "set", "tuple", "odict"]), "values": vals,
+    arg = G.pick(draw, ["list", "set", "tuple", "odict"])
+    return {"subs": subs, "subs_arg": arg, "naming": G.pick(draw, NAMINGS) if arg == "odict" else "same", "values": vals,
             "varied": varied, "varied_order": G.permutation(draw, sorted(vk)), "extra_key": bool(draw(G.ints(0, 3)) == 3)}
 
 
 def check_convert(case, ctx):
     import numpy as np
     sysd = {"subs": case["subs"], "rxns": []}
-    rsys = G.build_system(sysd, [], None, case["subs_arg"])
+    naming = case.get("naming", "same")
+    ctx.label("naming=" + naming)
+    # (keys that are not the Substance names need the mapping form of the substances argument)
+    rsys = build_sys(dict(sysd, naming=naming), []) if naming != "same" else G.build_system(sysd, [], None, case["subs_arg"])
     order = sorted(case["subs"]) if case["subs_arg"] == "set" else list(case["subs"])
     ns = len(order)
     ctx.label("arg=" + case["subs_arg"], "ns=%s" % (ns if ns <= 2 else "3-5" if ns <= 5 else "6+"),
@@ -1081,7 +1134,8 @@ def apply_op(state, op, ctx):
     if kind == "new":
         sysd = op[1]
         rids = _register(state, sysd["rxns"])
-        obj = G.build_system(sysd, [state["reg"][i] for i in rids])
+        obj = build_sys(sysd, [state["reg"][i] for i in rids])
+        ctx.label("op:new_naming=" + sysd.get("naming", "same"))
         e = _entry(state, obj, sysd["subs"], rids)
         ctx.label("op:new")
         _verify(state, e, ctx, "new")
@@ -1207,7 +1261,7 @@ def apply_op(state, op, ctx):
         if state["after_add"]:
             state["nontrivial"] = True
         yes, no = a["obj"].subset(fn)
-        if not check_subset_result(ctx, a["subs"], descs, objs, sel, yes, no):
+        if not check_subset_result(ctx, a["subs"], descs, objs, sel, yes, no, parent=a["obj"]):
             return
         if not _verify(state, a, ctx, "subset:parent_changed", structure=False):
             return
@@ -1266,16 +1320,17 @@ def machine(ctx):
             pool = self.state["pool"]
             return list(pool[i % len(pool)]["subs"]) if pool else []
 
-        @initialize(sysd=G.systems(cls="exact", max_subs=8, max_rxns=5))
-        def first(self, sysd):
-            self._do(["new", sysd])
+        @initialize(sysd=G.systems(cls="exact", max_subs=8, max_rxns=5), naming=G.ints(0, len(NAMINGS) - 1))
+        def first(self, sysd, naming):
+            self._do(["new", dict(sysd, naming=NAMINGS[naming])])
 
-        @rule(sysd=G.systems(cls="exact", max_subs=10, max_rxns=4), off=G.ints(0, 8))
-        def new(self, sysd, off):
+        @rule(sysd=G.systems(cls="exact", max_subs=10, max_rxns=4), off=G.ints(0, 8), naming=G.ints(0, len(NAMINGS) - 1))
+        def new(self, sysd, off, naming):
             # shift the keys so that later systems overlap the earlier ones only partly
             ren = {k: G.KEYS[(i + off) % len(G.KEYS)] for i, k in enumerate(G.KEYS)}
             sysd = {"subs": [ren[k] for k in sysd["subs"]],
-                    "rxns": [dict(r, **{s: {ren[k]: v for k, v in r[s].items()} for s in G.SIDES}) for r in sysd["rxns"]]}
+                    "rxns": [dict(r, **{s: {ren[k]: v for k, v in r[s].items()} for s in G.SIDES}) for r in sysd["rxns"]],
+                    "naming": NAMINGS[naming]}
             self._do(["new", sysd])
 
         @rule(i=G.ints(0, 7), data=st.data())
